@@ -419,6 +419,35 @@ class SimTimeout(BaseException):
 _LABELLA_PREFIX = os.path.join(REPO, "labella") + os.sep
 
 
+_WITH_EXIT_OFFSETS = {}
+
+
+def _with_exit_offsets(code):
+    """Offsets of the instructions at which CPython re-visits the line of a `with`
+    statement in order to call __exit__ (normal exit: three `LOAD_CONST None` and a
+    CALL; exceptional exit: PUSH_EXC_INFO, WITH_EXCEPT_START).  A 'line' event fires
+    there, but no operation of the program starts there: an exception injected at
+    that point would skip __exit__ altogether (a lock is never released), which is
+    not what an exception raised *by* a statement does.  Such events are neither
+    counted nor used."""
+    offs = _WITH_EXIT_OFFSETS.get(code)
+    if offs is None:
+        import dis
+
+        ins = list(dis.get_instructions(code))
+        found = set()
+        for i, x in enumerate(ins):
+            if x.opname == "PUSH_EXC_INFO" and i + 1 < len(ins) and ins[i + 1].opname == "WITH_EXCEPT_START":
+                found.add(x.offset)
+            elif (x.opname == "LOAD_CONST" and x.argval is None and i + 3 < len(ins)
+                  and ins[i + 1].opname == "LOAD_CONST" and ins[i + 1].argval is None
+                  and ins[i + 2].opname == "LOAD_CONST" and ins[i + 2].argval is None
+                  and ins[i + 3].opname == "CALL"):
+                found.add(x.offset)
+        offs = _WITH_EXIT_OFFSETS[code] = frozenset(found)
+    return offs
+
+
 class AbortTracer(object):
     """Raise SimAbort at the k-th line event executed inside labella code
     (optionally only counting lines of one file, or of lambdas)."""
@@ -439,6 +468,9 @@ class AbortTracer(object):
 
     def _local(self, frame, event, arg):
         if event == "line":
+            wx = _with_exit_offsets(frame.f_code)
+            if wx and frame.f_lasti in wx:
+                return self._local
             if self.func is not None:
                 code = frame.f_code
                 if code.co_name != self.func[1] or os.path.basename(code.co_filename) != self.func[0]:
@@ -479,6 +511,9 @@ class _CountTracer(AbortTracer):
 
     def _local(self, frame, event, arg):
         if event == "line":
+            wx = _with_exit_offsets(frame.f_code)
+            if wx and frame.f_lasti in wx:
+                return self._local
             self.n_any += 1
             code = frame.f_code
             key = os.path.basename(code.co_filename) + ":" + code.co_name
@@ -519,6 +554,11 @@ def dry_count(fn, scope):
             os.close(w)
         except BaseException:
             code = 4
+            if os.environ.get("LABSIM_DEBUG_DRY"):
+                import traceback
+
+                with open(os.environ["LABSIM_DEBUG_DRY"], "a") as f:
+                    f.write(traceback.format_exc() + "\n")
         finally:
             os._exit(code)
     os.close(w)
